@@ -4,7 +4,7 @@ import re
 
 MODEL_VOS = ["theories/Base.vo", "theories/Mapping.vo", "theories/Spec.vo", "theories/Mapper.vo",
              "theories/CacheWriter.vo", "theories/CacheReader.vo", "theories/Stacktrace.vo", "theories/Java.vo",
-             "theories/Metadata.vo", "theories/Sink.vo", "theories/Uuid.vo", "theories/Layout.vo", "theories/Domain.vo"]
+             "theories/Metadata.vo", "theories/Sink.vo", "theories/Uuid.vo", "theories/Layout.vo", "theories/Domain.vo", "theories/PinnedModel.vo"]
 
 TRUSTED_BASE = [
     "Coq 8.16.1 kernel (coqc), vm_compute for finite checks and witnesses; no native_compute",
@@ -63,7 +63,7 @@ def items_no_terminator(line):
     return bad
 
 
-def check_xver(case, il, ctx):
+def check_xver(case, il, ctx, ml=""):
     """C10: files of either release, read by either reader: WrongVersion or identical answers"""
     probs = []
     I = kv(il)
@@ -80,6 +80,14 @@ def check_xver(case, il, ctx):
                          f"{I.get('pc' if a == 'pp' else 'cc', '')[:140]!r}")
         if "PANIC" in (x or "") or "PANIC" in (y or "") or "ERR:" in (y or ""):
             probs.append(f"{who}: reader failed: {x[:80]} / {y[:80]}")
+    if case.split(" ")[0] == "W" and ml and ml != "w=SKIPPED":
+        # the bytes each release writes, against the model of that release's writer (Pinned.v / CacheWriter.v)
+        Mm = kv(ml)
+        if I.get("wc") != Mm.get("w"):
+            probs.append(f"bytes written by the current tree differ from the model writer: {I.get('wc', '')[:120]} / {Mm.get('w', '')[:120]}")
+        if I.get("wp") != Mm.get("wp"):
+            probs.append(f"bytes written by the pinned release differ from the model of the pinned writer (Pinned.v): {I.get('wp', '')[:120]} / {Mm.get('wp', '')[:120]}")
+        _kind(ctx, "xver:writer-models")
     ans = I.get("cc", "")
     _nontrivial(ctx, case, ans not in ("~", "[]", "", "none"))
     _kind(ctx, "xver:same-bytes" if I.get("samebytes") == "1" else "xver:bytes-differ")
@@ -91,7 +99,7 @@ def check_case(prop, case, il, ml, ctx):
     op = case.split(" ", 1)[0]
     probs = []
     if ctx.get("mode") == "run-xver":
-        return check_xver(case, il, ctx)
+        return check_xver(case, il, ctx, ml)
     I, M = kv(il), kv(ml)
     expected = [t[1:] for t in case.split(" ")[1:] if t.startswith("=")]
     mode = PROPS[prop].get("oracle", "spec")
@@ -477,7 +485,7 @@ PROPS = {
              "(fixed), which changes typed answers independently of the file bytes",
              "guard, version and reader-equality clauses proved for the models of both releases; that the vendored pinned "
              "release behaves as its model is established by the cross-release run",
-             modes=["run-xver"], model=False,
+             modes=["run-xver"], model_lines=lambda l: l if l.startswith("M ") else ("WP" if l == "W" else "NOP"),
              trusted_extra=["pinned/proguard-5.5.0: vendored sources of the pinned snapshot f3fcb84 (package renamed)"]),
     "C14": P(["C14_length_implied_by_header", "C14_function_of_bytes"],
              "Partial. Theorems: the output length equals the length implied by the header counts; the model writer is a "
